@@ -1163,6 +1163,7 @@ hwloc__xml_import_distances(hwloc_topology_t topology,
   int gp_indexing = heterotypes;
   char *name = NULL;
   unsigned long kind = 0;
+  int kind_set = 0;
   unsigned nr_indexes, nr_u64values;
   uint64_t *indexes;
   uint64_t *u64values;
@@ -1194,6 +1195,7 @@ hwloc__xml_import_distances(hwloc_topology_t topology,
     }
     else if (!strcmp(attrname, "kind")) {
       kind = strtoul(attrvalue, NULL, 10);
+      kind_set = 1; /* 0 is a valid kind for user-given distances */
     }
     else if (!strcmp(attrname, "name")) {
       name = attrvalue;
@@ -1206,7 +1208,7 @@ hwloc__xml_import_distances(hwloc_topology_t topology,
   }
 
   /* abort if missing attribute */
-  if (!nbobjs || (!heterotypes && unique_type == HWLOC_OBJ_TYPE_NONE) || !indexing || !kind) {
+  if (!nbobjs || (!heterotypes && unique_type == HWLOC_OBJ_TYPE_NONE) || !indexing || !kind_set) {
     if (hwloc__xml_verbose())
       fprintf(stderr, "%s: %s missing some attributes\n",
 	      state->global->msgprefix, _TAG_NAME);
